@@ -5,14 +5,15 @@ Theorems (lean/Amoco/Props/C08.lean) are about the model `Amoco.Memory` (lean/Am
 This harness ties the model to /repo's amoco/system/memory.py on every run:
   C  generated histories (mem_gen.py: writes of raw bytes / cst / reg / slices / comp, both
      endiannesses, sizes 1..16, explicit overlap classes, reads of arbitrary ranges, restruct / copy /
-     shift / merge interleaved, concrete zone and symbol-relative zones) run on the real
+     shift / merge interleaved, concrete zone and symbol-relative zones, a small workspace of live maps:
+     `fork` keeps the original next to its copy, later operations address any of them) run on the real
      MemoryMap/MemoryZone in-process (mem_real.py) and on the compiled model (drv_mem); after every
-     operation the zone dictionary (key order, objects: address / raw bytes or per-byte canonical
-     expression descriptor / endianness, cache) and every read result are compared;
+     operation the zone dictionaries of ALL live maps (key order, objects: address / raw bytes or per-byte
+     canonical expression descriptor / endianness, cache) and every read result are compared;
   K  the proved-sound checker `Zone.check` (⇒ ZoneWF, theorem `check_sound`) is evaluated on the zone
      dumped from the real code after every step;
-  O  an independent byte-store oracle (mem_oracle.py) judges every real read result and the flattened
-     dump of the real state; when anything breaks it is used to search for, and shrink, a replayable
+  O  an independent byte-store oracle (mem_oracle.py, one store per live map) judges every real read
+     result and the flattened dump of every live map; when anything breaks it is used to search for, and shrink, a replayable
      failing history on the real code.
 `python c08.py replay <file>` re-runs a replay file.
 """
@@ -23,11 +24,16 @@ import mem_gen, mem_oracle
 
 def op_shape(op):
     k = op["k"]
+    pre = "m%d:" % op["m"] if op.get("m", 0) else ""
     if k == "write":
-        return "write.%s.%s%s" % (op["val"][0], "le" if op["en"] == 1 else "be", "" if mem_gen.resolve(op["addr"]) else ".badaddr")
+        return pre + "write.%s.%s%s" % (op["val"][0], "le" if op["en"] == 1 else "be", "" if mem_gen.resolve(op["addr"]) else ".badaddr")
     if k == "merge":
-        return "merge(%s)" % ",".join(op_shape(o) for o in op["ops"])
-    return k
+        return pre + "merge(%s)" % ",".join(op_shape(o) for o in op["ops"])
+    if k == "fork":
+        return pre + "fork->m%d" % op["to"]
+    if k == "mergecopy":
+        return pre + "mergecopy(m%d)" % op["src"]
+    return pre + k
 
 
 def shape(ops):
@@ -85,12 +91,25 @@ def corpus():
         H.append([W(["ptrc", 0xfffffffc, 32, 8], raw(4), en), R(["cst", 4, 32], 4), R(2, 8),
                   W(["ext", "errno"], ["reg", 1, 4], en), R(["ext", "errno"], 4), R(["ptrs", "rsi", 0], 4),
                   R(["other"], 1), W(["ptrtop", 0], raw(1), en)])
+        # the original stays alive next to its copy: (a) adjacent unmerged raw objects, copy, write into the
+        # upper one of the ORIGINAL; (b) head-trimming write to the copy / to the original, read the other one
+        H.append([W(0x14, raw(4, 0x42), en), W(0x10, raw(4), en), {"k": "fork", "m": 0, "to": 1},
+                  W(0x15, raw(1, 0x58), en), R(0x10, 8), dict(R(0x10, 8), m=1)])
+        H.append([W(["ptrs", "esp", -4], raw(4, 0x42), en), W(["ptrs", "esp", -8], raw(4), en), {"k": "copy"},
+                  {"k": "fork", "m": 0, "to": 1}, W(["ptrs", "esp", -3], raw(1, 0x58), en), R(["ptrs", "esp", -8], 8)])
+        H.append([W(0x10, ["reg", 1, 4], en), {"k": "fork", "m": 0, "to": 1}, dict(W(0x0e, raw(4, 0x5a), en), m=1),
+                  R(0x10, 4), dict(R(0x0e, 6), m=1), W(0x0e, ["reg", 2, 3], en), dict(R(0x0e, 6), m=1), R(0x0e, 6),
+                  {"k": "mergecopy", "m": 1, "src": 0}, dict(R(0x0e, 6), m=1), {"k": "restruct", "m": 1}, R(0x0e, 6)])
     return H
 
 
 # ---------------------------------------------------------------------------------------------
 
 class Runner(object):
+    """histories are lists of ops that address live maps by id ("m"; see mem_gen).  Everything below
+    normalizes a history first (ops on maps that are not live are dropped), so any sub-sequence of a
+    history is again a history."""
+
     def __init__(self, ck, drv):
         self.ck, self.drv = ck, drv
         import mem_real
@@ -101,42 +120,53 @@ class Runner(object):
     # -- oracle-driven search for a failing input on the real code ---------------------------------
     def fails(self, ops):
         """does the last op of `ops`, run on the real code, return something the byte store rejects?"""
-        st = mem_oracle.Store()
+        nops, pos = mem_gen.normalize(ops)
+        if not pos or pos[-1] != len(ops) - 1:
+            return False, None, None
+        st = mem_oracle.Workspace()
         exp = None
-        for o in ops:
+        for o in nops:
             exp = st.apply(o)
-        out, _ = self.real.run(ops)
-        return not st.judge(ops[-1], exp, out[-1]["res"]), exp, out[-1]["res"]
+        out, _ = self.real.run(nops)
+        return not st.judge(nops[-1], exp, out[-1]["res"]), exp, out[-1]["res"]
 
     def first_bad_step(self, ops):
-        st = mem_oracle.Store()
-        out, _ = self.real.run(ops)
-        for n, o in enumerate(ops):
+        nops, pos = mem_gen.normalize(ops)
+        st = mem_oracle.Workspace()
+        out, _ = self.real.run(nops)
+        for n, o in enumerate(nops):
             exp = st.apply(o)
             if not st.judge(o, exp, out[n]["res"]):
-                return n
+                return pos[n]
         return None
 
-    def probe(self, ops):
-        """after `ops`, read every range of every zone on the real code; first read the store rejects."""
-        st = mem_oracle.Store()
-        for o in ops:
+    def probe(self, ops, light=False):
+        """after `ops`, read every range (light: the whole extent and every single byte) of every zone of
+        EVERY live map on the real code; returns the first read the map's own byte store rejects."""
+        nops, pos = mem_gen.normalize(ops)
+        ids = [0] + [ops[p]["to"] for p in pos if ops[p]["k"] == "fork"]
+        st = mem_oracle.Workspace()
+        for o in nops:
             st.apply(o)
-        out, M = self.real.run(ops)
-        for key in list(st.z.keys()):
-            ext = st.extent(key)
-            if ext is None or (key is not None and key.startswith("@")):
-                rng_ = [(0, n) for n in range(0, 20)]
-            else:
-                lo, hi = ext
-                rng_ = [(a, n) for a in range(lo - 2, hi + 2) for n in range(0, hi - a + 3)]
-            for a, n in rng_:
-                ad = ["int", a] if key is None else (["ext", key[1:]] if key.startswith("@") else ["ptrs", key, a])
-                rop = {"k": "read", "addr": ad, "n": n}
-                exp = st.apply(rop)
-                _, res = self.real.step(M, rop)
-                if not st.judge(rop, exp, res):
-                    return rop
+        out, ws = self.real.run(nops)
+        for mi, store in enumerate(st.s):
+            for key in list(store.z.keys()):
+                ext = store.extent(key)
+                if ext is None or (key is not None and key.startswith("@")):
+                    rng_ = [(0, n) for n in range(0, 20)]
+                elif light:
+                    lo, hi = ext
+                    rng_ = [(lo - 1, hi - lo + 2)] + [(a, 1) for a in range(lo, hi)]
+                else:
+                    lo, hi = ext
+                    rng_ = [(a, n) for a in range(lo - 2, hi + 2) for n in range(0, hi - a + 3)]
+                for a, n in rng_:
+                    ad = ["int", a] if key is None else (["ext", key[1:]] if key.startswith("@") else ["ptrs", key, a])
+                    rop = {"k": "read", "m": mi, "addr": ad, "n": n}
+                    exp = st.apply(rop)
+                    res = self.real.ws_step(ws, rop)
+                    if not st.judge(rop, exp, res):
+                        return dict(rop, m=ids[mi])
         return None
 
     def shrink(self, ops):
@@ -157,13 +187,35 @@ class Runner(object):
                 for n, o in enumerate(ops[:-1]):
                     if o["k"] == "merge" and len(o["ops"]) > 1:
                         for m in range(len(o["ops"])):
-                            cand = ops[:n] + [{"k": "merge", "ops": o["ops"][:m] + o["ops"][m + 1:]}] + ops[n + 1:]
+                            cand = ops[:n] + [dict(o, ops=o["ops"][:m] + o["ops"][m + 1:])] + ops[n + 1:]
                             if self.fails(cand)[0]:
                                 ops, changed = cand, True
                                 break
                     if changed:
                         break
         return ops
+
+    def probe_writes(self, ops):
+        """a latent corruption (e.g. two objects of the real zone overlapping after a copy) may need one
+        more write before a read shows it: try a 1-byte write at every address of every zone of every
+        live map, then the light probe."""
+        nops, pos = mem_gen.normalize(ops)
+        ids = [0] + [ops[p]["to"] for p in pos if ops[p]["k"] == "fork"]
+        st = mem_oracle.Workspace()
+        for o in nops:
+            st.apply(o)
+        for mi, store in enumerate(st.s):
+            for key in list(store.z.keys()):
+                ext = store.extent(key)
+                if ext is None or (key is not None and key.startswith("@")):
+                    continue
+                for a in range(ext[0] - 1, ext[1] + 1):
+                    ad = ["int", a] if key is None else ["ptrs", key, a]
+                    cand = list(ops) + [{"k": "write", "m": ids[mi], "addr": ad, "val": ["raw", "58"], "en": 1}]
+                    rop = self.probe(cand, light=True)
+                    if rop is not None:
+                        return cand + [rop]
+        return None
 
     def find_failing(self, ops):
         n = self.first_bad_step(ops)
@@ -181,9 +233,15 @@ class Runner(object):
         ck = self.ck
         prefix = ops[:step + 1]
         bad = self.find_failing(prefix)
+        if bad is None and len(ops) > len(prefix):
+            bad = self.find_failing(ops)
+        if bad is None:
+            bad = self.probe_writes(prefix)
+            if bad is not None:
+                bad = self.shrink(bad)
         if bad is not None:
             f, exp, res = self.fails(bad)
-            mod = self.drv.ask({"op": "mem.run", "ops": [mem_gen.model_op(o) for o in bad]})
+            mod = self.drv.ask({"op": "mem.run", "ops": [mem_gen.model_op(o) for o in mem_gen.normalize(bad)[0]]})
             sig = "C08:%s" % shape(bad)
             ck.report(sig, "history %s: the real memory returns %s, a last-write-wins byte store %s"
                       % (shape(bad), json.dumps(res)[:200], json.dumps(exp)[:200]),
@@ -195,72 +253,84 @@ class Runner(object):
     def oracle_only(self, ops):
         """real code vs byte store only (no model): used for inputs outside the modelled fragment."""
         ck = self.ck
-        real, _ = self.real.run(ops)
-        st = mem_oracle.Store()
-        for n, op in enumerate(ops):
+        nops, pos = mem_gen.normalize(ops)
+        real, _ = self.real.run(nops)
+        st = mem_oracle.Workspace()
+        for n, op in enumerate(nops):
             exp = st.apply(op)
-            if not st.judge(op, exp, real[n]["res"]) or not st.state_ok(real[n]["zones"]):
-                return self.diff("oracle-only", ops, n, real[n]["res"], None, "byte-store oracle on histories with zero-length writes")
+            if not st.judge(op, exp, real[n]["res"]) or not st.state_ok(real[n]["maps"]):
+                return self.diff("oracle-only", ops, pos[n], real[n]["res"], None, "byte-store oracle on histories with zero-length writes")
         ck.count("oracle-only.histories")
         ck.case(("empty", json.dumps(ops, sort_keys=True)), nontrivial=any(o["k"] == "write" and o["val"] == ["raw", ""] for o in ops))
 
-    def history(self, ops, tag):
+    def history(self, rawops, tag):
         ck, drv = self.ck, self.drv
         self.nhist += 1
+        ops, pos = mem_gen.normalize(rawops)
         mops = [mem_gen.model_op(o) for o in ops]
         model = drv.ask({"op": "mem.run", "ops": mops})
         real, _ = self.real.run(ops)
-        st = mem_oracle.Store()
+        st = mem_oracle.Workspace()
         if not isinstance(model, list):
-            self.corr_broken.append(("driver-error", {"ops": ops}, None, model, "driver"))
+            self.corr_broken.append(("driver-error", {"ops": rawops}, None, model, "driver"))
             return
-        # K: checker on every dumped real zone
+        # K: checker on every dumped real zone of every live map
         zreq, zidx = [], []
         for n, stp in enumerate(real):
-            if isinstance(stp["zones"], list):
-                for key, objs, cache in stp["zones"]:
-                    zreq.append({"map": objs, "cache": cache})
-                    zidx.append(n)
+            for zones in stp["maps"]:
+                if isinstance(zones, list):
+                    for key, objs, cache in zones:
+                        zreq.append({"map": objs, "cache": cache})
+                        zidx.append(n)
         kres = drv.ask({"op": "mem.checks", "zones": zreq}) if zreq else []
         kbad = {}
         for n, ok in zip(zidx, kres):
             if ok is not True:
                 kbad.setdefault(n, ok)
         nontrivial = False
+        nlive = 1
         for n, op in enumerate(ops):
             exp = st.apply(op)
             r, m = real[n], model[n]
+            nlive = len(r["maps"])
             if op["k"] == "write" and exp == "ok":
-                ck.count("ovl." + st.last_class)
-                if st.last_class not in ("first-in-zone", "gap", "before-first", "after-last"):
+                cls = st.last_class(op)
+                ck.count("ovl." + cls)
+                if cls not in ("first-in-zone", "gap", "before-first", "after-last"):
                     nontrivial = True
+                if nlive > 1:
+                    ck.count("write.with-%d-live-maps" % nlive)
             if op["k"] == "read":
                 ck.count("read.result." + ("MemoryError" if isinstance(r["res"], str) else
                                            "parts=%d" % min(len(r["res"]["items"]), 6)))
-            # oracle on the real result and the real state
+                if nlive > 1:
+                    ck.count("read.with-%d-live-maps" % nlive)
+            rn = pos[n]
+            mmaps = [[z[:3] for z in zones] for zones in m["maps"]]
+            # oracle on the real result and on the real state of every live map
             if not st.judge(op, exp, r["res"]):
-                return self.diff("oracle:result", ops, n, r["res"], m["res"], "Amoco.Memory.Props.read_refines / history_last_write_wins")
-            if not st.state_ok(r["zones"]):
-                return self.diff("oracle:state", ops, n, r["zones"], [z[:3] for z in m["zones"]], "Amoco.Memory.Props.abs_addtomap")
+                return self.diff("oracle:result", rawops, rn, r["res"], m["res"], "Amoco.Memory.Props.read_refines / history_last_write_wins / workspace_history")
+            if not st.state_ok(r["maps"]):
+                return self.diff("oracle:state", rawops, rn, r["maps"], mmaps, "Amoco.Memory.Props.abs_addtomap / workspace_history")
             if n in kbad:
-                return self.diff("checker", ops, n, r["zones"], kbad[n], "K: Zone.check (ZoneWF) on the real zone")
+                return self.diff("checker", rawops, rn, r["maps"], kbad[n], "K: Zone.check (ZoneWF) on the real zone")
             # correspondence
             mres = m["res"]
             if isinstance(mres, dict):
                 if not (isinstance(exp, tuple) and exp[0] == "bytes" and mres["flat"] == exp[1]):
-                    return self.diff("model-vs-oracle", ops, n, r["res"], mres, "model flatten(read) vs byte store")
+                    return self.diff("model-vs-oracle", rawops, rn, r["res"], mres, "model flatten(read) vs byte store")
                 mres = {"items": mres["items"]}
             if mres != r["res"]:
-                return self.diff("correspondence:result:" + op["k"], ops, n, r["res"], mres, "correspondence Amoco.Memory ~ system/memory.py (result of %s)" % op["k"])
-            mz = [z[:3] for z in m["zones"]]
-            if mz != r["zones"]:
-                return self.diff("correspondence:state:" + op["k"], ops, n, r["zones"], mz, "correspondence Amoco.Memory ~ system/memory.py (zones after %s)" % op["k"])
-            if not all(z[3] for z in m["zones"]):
-                return self.diff("model-wf", ops, n, r["zones"], m["zones"], "Amoco.Memory.Props.zoneWF_* (model zone fails its own checker)")
-        ck.case((tag, json.dumps(ops, sort_keys=True)), nontrivial=nontrivial)
+                return self.diff("correspondence:result:" + op["k"], rawops, rn, r["res"], mres, "correspondence Amoco.Memory ~ system/memory.py (result of %s)" % op["k"])
+            if mmaps != r["maps"]:
+                return self.diff("correspondence:state:" + op["k"], rawops, rn, r["maps"], mmaps, "correspondence Amoco.Memory ~ system/memory.py (all live maps after %s)" % op["k"])
+            if not all(z[3] for zones in m["maps"] for z in zones):
+                return self.diff("model-wf", rawops, rn, r["maps"], m["maps"], "Amoco.Memory.Props.zoneWF_* (model zone fails its own checker)")
+        ck.case((tag, json.dumps(rawops, sort_keys=True)), nontrivial=nontrivial)
         ck.count("hist.len.%02d-%02d" % (len(ops) // 10 * 10, len(ops) // 10 * 10 + 9))
+        ck.count("hist.live-maps.%d" % nlive)
         if self.nhist % 97 == 1:
-            ck.sample({"ops": ops[:6], "shape": shape(ops)[:300], "final_real_zones": real[-1]["zones"] if real else None})
+            ck.sample({"ops": rawops[:6], "shape": shape(rawops)[:300], "final_real_maps": real[-1]["maps"] if real else None})
 
 
 def with_empty_writes(r, ops):
@@ -312,7 +382,7 @@ def main(tier):
                     run.history(h, fn)
                     ck.count("corpus")
 
-    nh = 1500 if quick else 50000
+    nh = 1200 if quick else 50000
     maxlen = 40 if quick else 80
     for h in range(nh):
         r = rng("C08/%d" % h)
@@ -364,15 +434,17 @@ def replay(path):
     ops = rec["case"]["ops"]
     fresh_amoco()
     import mem_real
+    rawops = ops
+    ops, _ = mem_gen.normalize(rawops)
     out, _ = mem_real.run(ops)
-    st = mem_oracle.Store()
+    st = mem_oracle.Workspace()
     exp = None
     for o in ops:
         exp = st.apply(o)
     drv = Driver("drv_mem")
     mod = drv.ask({"op": "mem.run", "ops": [mem_gen.model_op(o) for o in ops]})
     drv.close()
-    print("history :", shape(ops))
+    print("history :", shape(rawops))
     print("real    :", json.dumps(out[-1]["res"]))
     print("model   :", json.dumps(mod[-1]["res"] if isinstance(mod, list) else mod))
     print("expected:", json.dumps(exp))
